@@ -109,12 +109,13 @@ func (e *Engine) Handle(conn transport.Conn) bool {
 //
 // Note: All passed servers to Accept must be closed before calling this method.
 func (e *Engine) Close() {
-	// acquire mutex
+	// stop acceptors, the mutex must not be held while waiting for them as
+	// an acceptor may be about to handle a connection it has just accepted
 	e.mutex.Lock()
-	defer e.mutex.Unlock()
-
-	// stop acceptors
 	e.tomb.Kill(nil)
+	e.mutex.Unlock()
+
+	// wait for acceptors
 	_ = e.tomb.Wait()
 }
 
